@@ -17,6 +17,8 @@ var zzSkeletons = []string{
 	"S1F1 W\n<L <U1 1> // unfinished, comment up to the end of input",
 	"S1F2 // header, then a comment up to the end of input",
 	"S1F1\n<A \"x\"> // terminator missing",
+	"S1F1 a \u20ac\n<U1 1>\n.",
+	"S1F2 W H->E xy \U0001F600 // \u00e9\n<L v\u00e9 <A \"\u20ac\">>\n.",
 }
 
 // zzTotalChecks: the result obligations of Parse on any input: all-or-nothing and
@@ -80,14 +82,14 @@ func ZZ_C06_soup() {
 
 // ZZ_C06_base: the unmodified skeletons: no error => every message in the input, in order.
 func ZZ_C06_base() {
-	want := [][2]int{{1, 1}, {6, 11}, {2, 2}, {1, 3}, {1, 1}, {0, 0}, {0, 0}, {0, 0}, {0, 0}}
+	want := [][2]int{{1, 1}, {6, 11}, {2, 2}, {1, 3}, {1, 1}, {0, 0}, {0, 0}, {0, 0}, {0, 0}, {1, 1}, {0, 0}}
 	for i, sk := range zzSkeletons {
 		msgs := zzParseTotal(sk)
 		switch i {
 		case 4:
 			rt.Assert(len(msgs) == 2, "base:both-messages-returned")
 			rt.Assert(msgs[0].FunctionCode() == 1 && msgs[1].FunctionCode() == 2, "base:in-order")
-		case 5, 6, 7, 8:
+		case 5, 6, 7, 8, 9, 10:
 			rt.Assert(len(msgs) == 0, "base:erroneous-text-returns-no-message")
 		default:
 			rt.Assert(len(msgs) == 1, "base:one-message")
